@@ -127,6 +127,19 @@ def run(ctx, prop):
         a = R.add(st, maxout=1)
         b = R.add(flat, maxout=1)
         plan.append((a, b, decl, "prog%d.nas" % ci, None))
+    # the object-file programs of /verif/corpus as written (naskfunc.nas of the book and the extended one): GLOBAL names and [FILE]
+    # are read from the parsed statements; the flat twin is the same text without the FORMAT line
+    import corpus, re as _re
+    ncorpus = 0
+    for name, src, st in corpus.load():
+        if not any(s_["k"] == "cfg" and s_["mn"] == "FORMAT" and "COFF" in s_["s"] for s_ in st):
+            continue
+        decl = [n for s_ in st if s_["k"] == "global" for n in s_["names"]]
+        fname = next((s_["s"] for s_ in st if s_["k"] == "cfg" and s_["mn"] == "FILE"), "")
+        a = R.add(st, src=src, maxout=1)
+        b = R.add([s_ for s_ in st if not (s_["k"] == "cfg" and s_["mn"] == "FORMAT")], src=_re.sub(r"(?m)^\[FORMAT[^\n]*\n", "", src), maxout=1)
+        plan.append((a, b, decl, fname, None))
+        ncorpus += 1
     R.run()
     events = []
     ndiag = 0
@@ -176,7 +189,7 @@ def run(ctx, prop):
     viol, known, other = flow.classify(ctx, ver, R, F, prop)
     mc = [s for s in ctx.tlc_stats if s["name"].startswith("mc:")]
     cov = {"states": sum(s["distinct"] for s in ctx.tlc_stats if not s["name"].startswith("trace:")), "transitions": sum(s["generated"] for s in ctx.tlc_stats if not s["name"].startswith("trace:")),
-           "traces_validated_against_impl": len(events), "objects_validated": len(events), "programs_with_diagnostic": ndiag,
+           "traces_validated_against_impl": len(events), "objects_validated": len(events), "corpus_objects": ncorpus, "programs_with_diagnostic": ndiag,
            "trace_events": ver["events"], "evaluations": len(plan), "distinct_nontrivial": len(events),
            "rule": "TLC enumerates (Gen_Coff.tla) GLOBAL declaration lists of 0..%d names over 9 name classes (lengths 1,7,8,9,17,40; two names sharing an 8-byte prefix; a long name that is a prefix of another) incl. duplicates x which names are undefined x one/several GLOBAL statements x label order (declaration, reverse, aliases at one address)%s; "
                    "[FILE] names of length none/1/17/18/19/40 and .text lengths 0/1/3/4096/70000 are cycled over the cells; every object is read raw and by debug/pe and judged by TLC against WellFormed/Matches; the same source without FORMAT gives the flat image" % (2 if quick else 3, " (seeded sample)" if quick else ""),
